@@ -458,7 +458,9 @@ def check_scan_positions(case, ctx):
         raise Violation(
             f"{J} explicit positions became an array of shape {out.shape}", ("positions", "count")
         )
-    # same order: every pairwise difference equals R(theta) . (dr / sampling)
+    # same order: every pairwise difference equals R(theta) . (dr / sampling); the sense of
+    # the rotation (x' = x cos + y sin, y' = -x sin + y cos, in pixel units) is that of the
+    # documented raster construction, which is cross-checked below ("raster_equivalence")
     th = case["rotation"] or 0.0
     px = positions / np.array(sampling)
     rot = np.stack([px[:, 0] * np.cos(th) + px[:, 1] * np.sin(th), -px[:, 0] * np.sin(th) + px[:, 1] * np.cos(th)], axis=1)
